@@ -64,8 +64,27 @@ func c16Decode(k c16Case, spanOn bool, report func(class, msg string)) (vals [][
 			input = ref.Encode(input, &st)
 		}
 	case "ConvertUnknownFields":
+		// the string sits at the top level, inside a list, a set, as a map key+value, or inside a nested struct
 		for i := 0; i < k.N; i++ {
-			input = ref.EncodeField(input, int16(i%100+1), &ref.Value{T: ref.STRING, S: want[i]})
+			sv := ref.Value{T: ref.STRING, S: want[i]}
+			var v ref.Value
+			switch i % 5 {
+			case 0:
+				v = sv
+			case 1:
+				v = ref.Value{T: ref.LIST, Elem: ref.STRING, L: []ref.Value{sv}}
+			case 2:
+				v = ref.Value{T: ref.SET, Elem: ref.STRING, L: []ref.Value{sv}}
+			case 3:
+				v = ref.Value{T: ref.MAP, Key: ref.I32, Elem: ref.STRING, L: []ref.Value{{T: ref.I32, I: 1}, sv}}
+			default:
+				v = ref.Value{T: ref.STRUCT, F: []ref.Field{{ID: 1, V: sv}}}
+			}
+			input = ref.EncodeField(input, int16(i%100+1), &v)
+		}
+	case "BufferReader.ReadMessageBegin/stream":
+		for i := 0; i < k.N; i++ {
+			input = ref.MessageBegin(input, string(want[i]), 1, int32(i))
 		}
 	default:
 		for i := 0; i < k.N; i++ {
@@ -84,7 +103,7 @@ func c16Decode(k c16Case, spanOn bool, report func(class, msg string)) (vals [][
 	switch k.Entry {
 	case "BufferReader.ReadBinary/bytes", "BufferReader.ReadString/bytes":
 		r = bufiox.NewBytesReader(input)
-	case "BufferReader.ReadBinary/stream", "BufferReader.ReadString/stream":
+	case "BufferReader.ReadBinary/stream", "BufferReader.ReadString/stream", "BufferReader.ReadMessageBegin/stream":
 		r = bufiox.NewDefaultReader(NewEnvReader(inputSnap, EnvCfg{Chunk: k.Chunk}))
 	}
 	if r != nil {
@@ -129,6 +148,20 @@ func c16Decode(k c16Case, spanOn bool, report func(class, msg string)) (vals [][
 			if i%7 == 6 {
 				r.Release(nil)
 			}
+		case "BufferReader.ReadMessageBegin/stream":
+			name, _, _, err := br.ReadMessageBegin()
+			if err != nil {
+				report("decode-error", fmt.Sprintf("decode #%d failed: %v", i, err))
+				return nil, false
+			}
+			rets = append(rets, ret{s: name, isS: true})
+			if i%5 == 4 { // the codec object goes back to its pool and is handed out again
+				br.Recycle()
+				br = thrift.NewBufferReader(r)
+			}
+			if i%7 == 6 {
+				r.Release(nil)
+			}
 		case "Base.FastRead":
 			if i%3 != 0 || i+2 >= k.N {
 				continue
@@ -149,8 +182,19 @@ func c16Decode(k c16Case, spanOn bool, report func(class, msg string)) (vals [][
 			report("decode-error", fmt.Sprintf("ConvertUnknownFields failed: %v", err))
 			return nil, false
 		}
-		for _, f := range fs {
-			rets = append(rets, ret{s: f.Value.(string), isS: true})
+		for i, f := range fs {
+			var sv interface{}
+			switch i % 5 {
+			case 0:
+				sv = f.Value
+			case 1, 2:
+				sv = f.Value.([]unknownfields.UnknownField)[0].Value
+			case 3:
+				sv = f.Value.([]unknownfields.UnknownField)[1].Value
+			default:
+				sv = f.Value.([]unknownfields.UnknownField)[0].Value
+			}
+			rets = append(rets, ret{s: sv.(string), isS: true})
 		}
 	}
 	if br != nil {
@@ -282,7 +326,7 @@ func c16One(c *mc.Ctx, k c16Case) {
 	}
 }
 
-var c16Entries = []string{"Binary.ReadBinary", "Binary.ReadString", "BufferReader.ReadBinary/bytes", "BufferReader.ReadString/bytes", "BufferReader.ReadBinary/stream", "BufferReader.ReadString/stream", "Base.FastRead", "ConvertUnknownFields"}
+var c16Entries = []string{"Binary.ReadBinary", "Binary.ReadString", "BufferReader.ReadBinary/bytes", "BufferReader.ReadString/bytes", "BufferReader.ReadBinary/stream", "BufferReader.ReadString/stream", "BufferReader.ReadMessageBegin/stream", "Base.FastRead", "ConvertUnknownFields"}
 
 func c16Run(c *mc.Ctx) {
 	th := c.Thorough()
@@ -312,14 +356,14 @@ func c16Run(c *mc.Ctx) {
 				chunk = 4097
 			}
 			nn := n
-			if (e == "Base.FastRead" || e == "ConvertUnknownFields") && L > 131073 {
+			if (e == "Base.FastRead" || e == "ConvertUnknownFields" || e == "BufferReader.ReadMessageBegin/stream") && L > 131073 {
 				nn = 6
 			}
 			c.Distinct("run", e, L)
 			c16One(c, c16Case{Entry: e, Lens: []int{L}, N: nn, Chunk: chunk})
 		}
 	}
-	c.Done(fmt.Sprintf("runs of consecutive decodes wrapping the 1 MiB span (%d bytes per run) for each of %d length classes (0 .. 1 MiB+1, both edges of every span class) x 8 entry points x span cache off/on", wrap, len(c16Lens)))
+	c.Done(fmt.Sprintf("runs of consecutive decodes wrapping the 1 MiB span (%d bytes per run) for each of %d length classes (0 .. 1 MiB+1, both edges of every span class) x 9 entry points x span cache off/on", wrap, len(c16Lens)))
 	// mixed-class runs: all ordered pairs of classes alternating
 	mixed := []int{0, 1, 127, 128, 129, 256, 1024, 4096, 65536, 131071, 131072, 131073}
 	for _, a := range mixed {
